@@ -16,6 +16,19 @@ def _mode(fmt, variant=0):
     return hszinc.MODE_ZINC if fmt == 'zinc' else hszinc.MODE_JSON
 
 
+def dump_doc(case, gs, single, fmt, var, stage='dump-raises'):
+    """hszinc.dump / dumper.dump_grid in one of the equivalent public spellings, chosen by the integer var: the mode as the
+    constant or as a documented alias, several grids as a list, a tuple or a one-shot iterator"""
+    import hszinc
+    if single and var % 5 == 4:
+        from hszinc import dumper
+        return guarded(stage, case, dumper.dump_grid, gs[0], mode=_mode(fmt, var))
+    if single:
+        return guarded(stage, case, hszinc.dump, gs[0], mode=_mode(fmt, var))
+    seq = (list(gs), tuple(gs), iter(list(gs)))[(var // 3) % 3]
+    return guarded(stage, case, hszinc.dump, seq, mode=_mode(fmt, var))
+
+
 def check_scalar(case, fmt):
     """case = {'kind': 'scalar', 'ver': '2.0'|'3.0', 'value': model}"""
     import hszinc
@@ -71,11 +84,7 @@ def check_doc(case, fmt):
     gs = [model.from_model(m) for m in ms]
     before = [model.to_model(g) for g in gs]
     var = len(repr(ms))         # deterministic variation of equivalent API spellings
-    if single and var % 5 == 4:
-        from hszinc import dumper
-        txt = guarded('dump-raises', case, dumper.dump_grid, gs[0], mode=_mode(fmt, var))
-    else:
-        txt = guarded('dump-raises', case, hszinc.dump, gs[0] if single else gs, mode=_mode(fmt, var))
+    txt = dump_doc(case, gs, single, fmt, var)
     if not isinstance(txt, str):
         raise Violation('dump-type', case, 'dump returned %s' % type(txt).__name__)
     for b, g in zip(before, gs):
